@@ -305,6 +305,7 @@ func TestCheck(t *testing.T) {
 			}
 		}
 	}
+	sourceChunking(s, thorough)
 	if s.Replay == nil {
 		s.AddStats(qx.ExploreAll(t, items, s.Remaining())...)
 	}
